@@ -471,6 +471,8 @@ __CPROVER_requires(CNT_OK(notations) && CNT_OK(embeddedsigs) && CNT_OK(recipient
 __CPROVER_assigns(*out, in->size, current_packet->size, *qual, *x_rvss_qual, *capl, *v_i, c_ik->size, __CPROVER_object_whole(c_ik->data), notations->size, embeddedsigs->size, recipientfprs->size, T57_SCRATCH)
 __CPROVER_ensures(in->size <= __CPROVER_old(in->size))
 __CPROVER_ensures(current_packet->size >= __CPROVER_old(current_packet->size) && current_packet->size - __CPROVER_old(current_packet->size) <= __CPROVER_old(in->size) - in->size)
+/* progress: the tag octet of a non-empty input is always consumed (callers loop `while (pkts.size())`) */
+__CPROVER_ensures(__CPROVER_old(in->size) >= 1 ==> in->size < __CPROVER_old(in->size))
 //@ loop 1
 __CPROVER_assigns(len, partlen, firstlen, in->size, pkt.size, current_packet->size, out->indetlen, vec_u8__cell)
 __CPROVER_loop_invariant(in->size <= __CPROVER_loop_entry(in->size) && pkt.size <= __CPROVER_loop_entry(in->size) - in->size && current_packet->size >= __CPROVER_loop_entry(current_packet->size) && current_packet->size - __CPROVER_loop_entry(current_packet->size) <= __CPROVER_loop_entry(in->size) - in->size)
